@@ -161,16 +161,16 @@ theorem scan_eq_ref (split : SplitFn) (hs : SplitOK split) (max : Nat) (sched : 
       rw [hra.2 e rfl]
     | none =>
       simp only []
-      by_cases hr : r.isEmpty = true
-      · left
-        have : r = [] := by simpa using hr
-        subst this
-        simp only [List.isEmpty_nil, if_true, List.append_nil]
-        rw [refScan_eq split p, hd]
-      · simp only [hr, if_false]
-        by_cases hmax : max ≤ p'.length
-        · right; simp [hmax]
-        · simp only [hmax, dite_false]
+      by_cases hmax : max ≤ p'.length
+      · right; simp [hmax]
+      · simp only [hmax, dite_false]
+        by_cases hr : r.isEmpty = true
+        · left
+          have : r = [] := by simpa using hr
+          subst this
+          simp only [List.isEmpty_nil, if_true, List.append_nil]
+          rw [refScan_eq split p, hd]
+        · simp only [hr, if_false]
           have hrl : 0 < r.length := by
             cases r with
             | nil => simp at hr
